@@ -3,6 +3,7 @@ import itertools
 
 import exprio
 import graphcap
+import graphforms
 import vlib
 
 PROPS = "Props/C09.v"
@@ -112,21 +113,76 @@ def pre_state(s, rng, style):
         s.add_answer_key(a)
 
 
-def run_case(ctx, m, n, edges, form, style, reqs, metas):
+def run_case(ctx, m, n, edges, form, style, reqs, metas, cont="asis", kw=False):
+    """cont: the container handed to the function -- 'asis' (what make_flags built), 'tuple', 'array1d', or a one-shot
+    iterable kind of graphforms.ONESHOT (the model always sees the materialised list); kw: all arguments by keyword"""
+    from cspuz.array import BoolArray1D
     from cspuz.graph import Graph, active_edges_acyclic
     from cspuz import Solver
     s = Solver()
     pre_state(s, ctx.rng, style)
     arg, trees = make_flags(s, len(edges), form, ctx.rng)
+    if cont == "tuple":
+        arg = tuple(trees)
+    elif cont == "array1d":
+        arg = BoolArray1D(list(trees))
+    elif cont in graphforms.ONESHOT:
+        arg = graphforms.oneshot(cont, trees)
     g = Graph(n)
     for (a, b) in edges:
         g.add_edge(a, b)
     pre = exprio.show_state(s)
     ftok = exprio.show_list(trees)
-    r = vlib.guarded(active_edges_acyclic, s, arg, g)
+    if kw:
+        r = vlib.guarded(lambda: active_edges_acyclic(solver=s, is_active_edge=arg, graph=g))
+    else:
+        r = vlib.guarded(active_edges_acyclic, s, arg, g)
+    if r[0] == "ok" and r[1] is not None:
+        r = ("ok-but-returns", type(r[1]).__name__)
     impl = ("ok", exprio.show_state(s)) if r[0] == "ok" else r
     reqs.append("P %s S %s L %s" % (graphcap.graph_tok(n, edges), pre, ftok))
-    metas.append((n, tuple(edges), form, style, ftok, impl))
+    metas.append((n, tuple(edges), form, style, ftok, impl, cont, kw))
+
+
+def graph_snapshot(g):
+    return (g.num_vertices, list(g.edges), [list(l) for l in g.incident_edges])
+
+
+def run_history(ctx, n, edges, form, mode, style, reqs, metas, side):
+    """two calls on the same Solver with the same Graph object and the same flag list ('same'), or with an edge added to
+    the Graph and a flag appended to the list by the caller in between ('extend'); the second request starts from the
+    state the first call left.  After every call the flag list and the Graph must be what the caller passed."""
+    from cspuz.graph import active_edges_acyclic
+    from cspuz import Solver
+    rng = ctx.rng
+    s = Solver()
+    pre_state(s, rng, style)
+    arg, trees = make_flags(s, len(edges), form, rng)
+    flags = list(trees)
+    edges = list(edges)
+    g = graphcap.mk_graph(n, edges)
+    for step in ("first", "second"):
+        pre = exprio.show_state(s)
+        ftok = exprio.show_list(flags)
+        snap_f, snap_g = list(flags), graph_snapshot(g)
+        r = vlib.guarded(active_edges_acyclic, s, flags, g)
+        impl = ("ok", exprio.show_state(s)) if r[0] == "ok" else r
+        reqs.append("P %s S %s L %s" % (graphcap.graph_tok(n, edges), pre, ftok))
+        metas.append((n, tuple(edges), form, style, ftok, impl, "history-%s-%s" % (mode, step), False))
+        same = (len(flags) == len(snap_f) and all(a is b for a, b in zip(flags, snap_f)) and graph_snapshot(g) == snap_g
+                and snap_g == graph_snapshot(graphcap.mk_graph(n, edges)))
+        side.append(("args-unchanged", (mode, step, n, tuple(edges), form), "unchanged",
+                     "unchanged" if same else "flag list or Graph modified by the call"))
+        if r[0] != "ok":
+            return
+        if step == "first" and mode == "extend" and n >= 2:
+            a = rng.randrange(n)
+            b = (a + 1 + rng.randrange(n - 1)) % n
+            if rng.random() < 0.5:
+                a, b = b, a
+            g.add_edge(a, b)
+            edges.append((a, b))
+            flags.append(s.bool_var() if form != "const" else True)
 
 
 def parse_post(o):
@@ -160,6 +216,10 @@ def corr_graphs(ctx):
         yield "random-loops", n, es
     for h, w in graphcap.grid_shapes(20 if ctx.thorough else 12):
         yield "grid", h * w, graphcap.grid_edges(h, w)
+    # structured instances beyond the exhaustive scope, as given and with shuffled order / flipped endpoints
+    for (k, n, es) in graphforms.structured(rng, loops=True):
+        yield "structured", n, es
+        yield "structured", n, graphforms.shuffled(rng, es)
     for m in (0, 1, 2):
         yield "zero-vertices", 0, []
 
@@ -181,12 +241,35 @@ def correspond(ctx):
             ctx.count("graphs:" + kind)
             ctx.count("form:" + form)
             run_case(ctx, m, n, es, form, rng.randrange(3), reqs, metas)
+        # containers and call forms: tuple / BoolArray1D of any flag form, every argument by keyword, one-shot iterables
+        if kind != "zero-vertices":
+            form = rng.choice(FORMS[1:])
+            cont = rng.choice(["tuple", "array1d"])
+            ctx.count("container:" + cont)
+            run_case(ctx, m, n, es, form, rng.randrange(3), reqs, metas, cont=cont, kw=rng.random() < 0.5)
+            if kind not in ("small", "small-shuffled") or rng.random() < 0.3:
+                cont = rng.choice(graphforms.ONESHOT)
+                ctx.count("container:oneshot:" + cont)
+                run_case(ctx, m, n, es, rng.choice(FORMS[1:]), 0, reqs, metas, cont=cont, kw=rng.random() < 0.3)
+    # histories: the same Solver / Graph object / flag list used for two calls
+    side = []
+    hist = [(k, n, es) for (k, n, es) in corr_graphs(ctx) if k in ("small-shuffled", "random", "structured", "grid", "loops")]
+    for (k, n, es) in hist[::(3 if ctx.thorough else 6)]:
+        mode = rng.choice(["same", "extend", "extend"])
+        ctx.count("history:" + mode)
+        run_history(ctx, n, es, rng.choice(["vars", "vars", "mixed", "const", "neg", "shared"]), mode, rng.randrange(3), reqs, metas, side)
     outs = m.batch(reqs)
-    for (n, es, form, style, ftok, impl), o in zip(metas, outs):
+    for (n, es, form, style, ftok, impl, cont, kw), o in zip(metas, outs):
         mo = parse_post(o)
+        if cont in graphforms.ONESHOT and impl == ("err", "TypeError"):
+            ctx.count("container:oneshot:refused(TypeError)")
+            impl = mo        # refusing a one-shot iterable is allowed; anything else must equal the list form
         if mo[0] == "err" or impl[0] == "err":
             ctx.count("outcome:" + (impl[1] if impl[0] == "err" else "ok-vs-model-err"))
-        ctx.corr("posted-program", (n, es, form, style, ftok), mo, impl)
+        kindname = "posted-program" if cont == "asis" else ("posted-program:" + (cont if not cont.startswith("history") else cont.rsplit("-", 1)[0]))
+        ctx.corr(kindname, (n, es, form, style, ftok, cont, kw), mo, impl)
+    for (kind, info, want, got) in side:
+        ctx.corr(kind, info, want, got)
 
 
 # ---------------------------------------------------------------- search
@@ -356,6 +439,20 @@ def search_graphs(ctx):
     for h, w in [(2, 2), (2, 3), (3, 3), (2, 4), (1, 5), (3, 4)]:
         es = graphcap.grid_edges(h, w)
         yield "grid", h * w, es, (None if len(es) <= 7 else tree_biased_patterns(rng, h * w, es, 40))
+    # graph forms: the exhaustive graphs stored with shuffled edge order / flipped endpoints (a sample in quick)
+    for n, es in graphcap.all_multigraphs(4, 5):
+        if len(es) >= 2 and (ctx.thorough or rng.random() < (0.6 if ctx.deep else 0.3)):
+            yield "small-flip", n, graphforms.shuffled(rng, es), None
+    # structured instances beyond the exhaustive scope (two disjoint cycles, K5/K6/K33, wheels, prisms, Petersen, bundles,
+    # long paths / cycles, 7-vertex graphs with n+3..n+6 edges), cycles stored head-to-tail / (larger, smaller)
+    for (k, n, es) in graphforms.structured(rng):
+        forms = [es, graphforms.shuffled(rng, es)] if (ctx.thorough or ctx.deep) else [es if rng.random() < 0.5 else graphforms.shuffled(rng, es)]
+        for f in forms:
+            if len(f) <= 7:
+                yield "structured", n, f, None
+            else:
+                cnt = 60 if ctx.thorough else 35
+                yield "structured", n, f, sorted(set(tree_biased_patterns(rng, n, f, cnt)) | set(graphforms.targeted_patterns(rng, n, f, cnt)))
 
 
 def bool_value(e, val):
@@ -412,6 +509,205 @@ def search_expression_flags(ctx):
                          "expected_satisfiable": want, "observed_satisfiable": got})
 
 
+# ---------------------------------------------------------------- scenarios: containers, call forms, histories
+
+class Scenario:
+    """a JSON-able call sequence run on the real code: {"decl": caller variables, "n": vertices, "same_list": bool,
+    "calls": [{"edges" (edge list of the one Graph object at the time of the call: a prefix extension of the previous
+    call's), "newdecl", "flags" (tree strings over the caller's variables; c<k> = k-th caller variable), "cont", "kw"}]}"""
+
+    def __init__(self, sc):
+        from cspuz import Solver
+        from cspuz.array import BoolArray1D
+        from cspuz.graph import Graph, active_edges_acyclic
+        self.sc = sc
+        s = self.s = Solver()
+        self.callers, self.trees, self.unchanged = [], [], True
+        n = sc["n"]
+
+        def declare(tokens):
+            for t in tokens:
+                if t == "b":
+                    self.callers.append(s.bool_var())
+                else:
+                    _, lo, hi = t.split(":")
+                    self.callers.append(s.int_var(int(lo), int(hi)))
+        declare(sc["decl"])
+        g = Graph(n)
+        flaglist = []
+        for call in sc["calls"]:
+            declare(call.get("newdecl", []))
+            edges = [tuple(e) for e in call["edges"]]
+            for (a, b) in edges[len(g.edges):]:
+                g.add_edge(a, b)
+            flags = [exprio.parse(" ".join(exprio.show(self.callers[int(w[1:])]) if w[0] == "c" else w for w in t.split()), s.variables)
+                     for t in call["flags"]]
+            if sc.get("same_list"):
+                flaglist.extend(flags[len(flaglist):])
+            else:
+                flaglist = flags
+            self.trees.append(list(flaglist))
+            cont = call.get("cont", "S")
+            if cont == "S":
+                carg = flaglist
+            elif cont == "T":
+                carg = tuple(flaglist)
+            elif cont == "A":
+                carg = BoolArray1D(flaglist)
+            else:
+                carg = graphforms.oneshot(cont, flaglist)
+            snap_f, snap_g = list(flaglist), graph_snapshot(g)
+            if call.get("kw"):
+                res = active_edges_acyclic(solver=s, is_active_edge=carg, graph=g)
+            else:
+                res = active_edges_acyclic(s, carg, g)
+            if res is not None:
+                raise TypeError("active_edges_acyclic returned a value")
+            if not (len(flaglist) == len(snap_f) and all(a is b for a, b in zip(flaglist, snap_f))
+                    and graph_snapshot(g) == snap_g == graph_snapshot(graphcap.mk_graph(n, edges))):
+                self.unchanged = False
+        self._check = None
+
+    def sat(self, val):
+        if self._check is None:
+            self._check = z3_session(self.s)
+        return self._check(list(zip(self.callers, val)))
+
+    def expected(self, val):
+        asg = {v.id: x for v, x in zip(self.callers, val)}
+        want, pats = True, []
+        for call, trees in zip(self.sc["calls"], self.trees):
+            edges = [tuple(e) for e in call["edges"]]
+            pat = [bool(bool_value(t, asg)) for t in trees[:len(edges)]]
+            pats.append("".join("1" if b else "0" for b in pat))
+            want = want and graphcap.edges_form_forest(self.sc["n"], edges, pat)
+        return want, pats
+
+
+def scenario_key(sc):
+    import hashlib
+    import json
+    return hashlib.md5(json.dumps(sc, sort_keys=True).encode()).hexdigest()[:10]
+
+
+def check_scenario(ctx, label, sc, nvals):
+    rng = ctx.rng
+    key = "acyclic:%s:%s" % (label, scenario_key(sc))
+    r = vlib.guarded(Scenario, sc)
+    if r[0] == "err":
+        ctx.prop_case(label + ":raises", key)
+        ctx.violation(key + ":raises", "active_edges_acyclic raises %s on a well-formed call sequence (%s)" % (r[1], label),
+                      {"scenario": sc, "error": r[1]})
+        return
+    P = r[1]
+    if not P.unchanged:
+        ctx.violation(key + ":args", "the flag list or the Graph passed in was modified by the call (%s)" % label, {"scenario": sc})
+    cands, seen = {True: [], False: []}, set()
+    for _ in range(40 * nvals):
+        val = [rng.random() < 0.55 for _ in P.callers]
+        if tuple(val) not in seen:
+            seen.add(tuple(val))
+            cands[P.expected(val)[0]].append(val)
+        if len(cands[True]) >= nvals and len(cands[False]) >= nvals:
+            break
+    k = min(len(cands[True]), (nvals + 1) // 2)
+    for val in cands[True][:k] + cands[False][:nvals - k]:
+        want, pats = P.expected(val)
+        got = P.sat(val)
+        ctx.prop_case("sat-vs-forest:" + label, (key, tuple(val)))
+        ctx.count("pattern:" + ("forest" if want else "cyclic"))
+        if got != want:
+            ctx.violation("%s:val=%s" % (key, "".join("1" if x else "0" for x in val)),
+                          "posted constraints are %s although the active edges %s (%s)" % (
+                              "satisfiable" if got else "unsatisfiable", "contain a cycle" if not want else "form a forest", label),
+                          {"scenario": sc, "caller_values": [bool(x) for x in val], "active_per_call": pats,
+                           "expected_satisfiable": want, "observed_satisfiable": got})
+
+
+def flag_strings(rng, m, form):
+    from cspuz import Solver
+    from cspuz.expr import BoolVar
+    s0 = Solver()
+    pre_state(s0, rng, 1)
+    arg, trees = make_flags(s0, m, form, rng)
+    return ["b" if isinstance(v, BoolVar) else "i:%d:%d" % (v.lo, v.hi) for v in s0.variables], [exprio.show(t) for t in trees]
+
+
+def search_scenarios(ctx):
+    rng = ctx.rng
+    big, deep = ctx.thorough, ctx.deep
+    small = [(n, es) for n, es in graphcap.all_multigraphs(4, 4) if len(es) >= 1]
+    pool = rng.sample(small, 100 if big else (60 if deep else 36))
+    pool = [(n, graphforms.shuffled(rng, es) if i % 2 else es) for i, (n, es) in enumerate(pool)]
+    pool += [graphcap.random_multigraph(rng, 7) for _ in range(80 if big else (40 if deep else 24))]
+    pool += [(n, es) for (k, n, es) in graphforms.structured(rng)][::(1 if big else 3)]
+    # (a) expression / constant flags in every container kind, positional and keyword call
+    for (n, es) in pool:
+        form = rng.choice(["neg", "and", "or", "const", "shared", "mixed", "mixed"])
+        decl, flags = flag_strings(rng, len(es), form)
+        sc = {"decl": decl, "n": n, "calls": [{"edges": [list(e) for e in es], "flags": flags,
+                                               "cont": rng.choice(["S", "T", "A"]), "kw": rng.random() < 0.4}]}
+        ctx.count("scenario-form:" + form)
+        check_scenario(ctx, "expr-flags", sc, 8 if len(es) > 2 else 4)
+    # (a') flags that are mostly Python constants spelling out a targeted edge subset (a forest plus one edge, when there
+    # is one; and a random one); the few non-constant flags are decided by the caller assignment
+    for (n, es) in pool:
+        if len(es) < 2:
+            continue
+        pats = graphforms.targeted_patterns(rng, n, es, 12) + tree_biased_patterns(rng, n, es, 6)
+        near = []
+        for q in pats:
+            if not graphcap.edges_form_forest(n, es, q):
+                on = [k for k in range(len(es)) if q[k]]
+                if any(graphcap.edges_form_forest(n, es, [b and k != d for k, b in enumerate(q)]) for d in on):
+                    near.append(q)
+        for pat in ([rng.choice(near)] if near else []) + [rng.choice(pats)]:
+            allconst = rng.random() < 0.6
+            flags = [("T" if b else "F") if (allconst or rng.random() < 0.7) else rng.choice(["b0", "( B NOT b1 )", "( B AND b0 b1 )"])
+                     for b in pat]
+            sc = {"decl": ["b", "b"], "n": n, "calls": [{"edges": [list(e) for e in es], "flags": flags,
+                                                         "cont": rng.choice(["S", "T", "A"]), "kw": rng.random() < 0.4}]}
+            ctx.count("scenario-form:const-pattern")
+            check_scenario(ctx, "const-flags", sc, 1 if allconst else 4)
+    # (b) histories: two calls on the same Solver and Graph object; same flag list, or the Graph extended in between
+    for i, (n, es) in enumerate(pool):
+        if n < 2 or len(es) > 10:
+            continue
+        mode = ["same", "extend", "extend-fresh-flags"][i % 3]
+        decl, flags = flag_strings(rng, len(es), rng.choice(["vars", "vars", "neg", "mixed"]))
+        c1 = {"edges": [list(e) for e in es], "flags": flags, "cont": "S"}
+        if mode == "same":
+            sc = {"decl": decl, "n": n, "same_list": True, "calls": [c1, dict(c1)]}
+        else:
+            a = rng.randrange(n)
+            b = (a + 1 + rng.randrange(n - 1)) % n
+            es2 = [list(e) for e in es] + [[a, b]]
+            if mode == "extend":
+                c2 = {"edges": es2, "newdecl": ["b"], "flags": flags + ["c%d" % len(decl)], "cont": "S"}
+                sc = {"decl": decl, "n": n, "same_list": True, "calls": [c1, c2]}
+            else:
+                k = len(decl)
+                c2 = {"edges": es2, "newdecl": ["b"] * len(es2), "flags": ["c%d" % (k + j) for j in range(len(es2))],
+                      "cont": rng.choice(["S", "T", "A"])}
+                sc = {"decl": decl, "n": n, "same_list": False, "calls": [c1, c2]}
+        ctx.count("scenario-history:" + mode)
+        check_scenario(ctx, "history-" + mode, sc, 10)
+    # (c) one-shot iterables: refused with TypeError, or the same program as for the materialised list
+    for (n, es) in pool[::2]:
+        decl, flags = flag_strings(rng, len(es), rng.choice(["vars", "mixed"]))
+        kind = rng.choice(graphforms.ONESHOT)
+        base = {"edges": [list(e) for e in es], "flags": flags, "cont": "S"}
+        sc_one = {"decl": decl, "n": n, "calls": [dict(base, cont=kind)]}
+        ctx.prop_case("oneshot", (n, tuple(es), kind, tuple(flags)))
+        r1 = vlib.guarded(lambda: exprio.show_state(Scenario({"decl": decl, "n": n, "calls": [base]}).s))
+        r2 = vlib.guarded(lambda: exprio.show_state(Scenario(sc_one).s))
+        ctx.count("scenario-oneshot:" + (r2[1] if r2[0] == "err" else "accepted"))
+        if r2 != r1 and r2 != ("err", "TypeError"):
+            ctx.violation("acyclic:oneshot:%s" % scenario_key(sc_one),
+                          "a one-shot iterable as is_active_edge is neither refused (TypeError) nor treated like the list it yields",
+                          {"scenario": sc_one, "list_form": r1[1][:400], "oneshot_form": r2[1][:400]})
+
+
 def search(ctx):
     try:
         m = ctx.model("C09")
@@ -461,6 +757,7 @@ def search(ctx):
                 if sample and want and len(rank_vars) == n:
                     rank_jobs.append((n, es, pat, check, fl, rank_vars))
     search_expression_flags(ctx)
+    search_scenarios(ctx)
     if m is None:
         return
     # the Coq specification agrees with the independent oracle
@@ -486,6 +783,19 @@ def search(ctx):
 def replay(ctx, rp):
     print(rp)
     v = rp.get("violation", {}).get("detail", {})
+    if v and "scenario" in v:
+        r = vlib.guarded(Scenario, v["scenario"])
+        if r[0] == "err":
+            print("scenario raises", r[1])
+            return 1 if ("error" in v or "oneshot_form" in v) else 0
+        P = r[1]
+        if "caller_values" not in v:
+            print("arguments unchanged:", P.unchanged)
+            return 0 if P.unchanged else 1
+        want, pats = P.expected(v["caller_values"])
+        got = P.sat(v["caller_values"])
+        print("satisfiable:", got, " forest (every call):", want, " active edges per call:", pats)
+        return 1 if got != want else 0
     if not v or "pattern" not in v:
         return 0
     n, es, pat = v["n"], [tuple(e) for e in v["edges"]], [bool(b) for b in v["pattern"]]
